@@ -185,6 +185,31 @@ def gen_cases(rng, tier):
                 aad, msg, segs, taglen=rng.choice([16, 12]), inplace=rng.below(2), family="big")
         else:
             add(alg, "direct", 1, rng.bytes(rng.choice([16, 24, 32])), rng.bytes(12), b"", msg, segs, taglen=16, family="big")
+    # counter low-byte wrap: the GCM kernels increment the big-endian counter with a 32-bit add while the low
+    # byte cannot wrap and take a byte-swapping path otherwise; which path a segment takes depends on the counter
+    # saved in the context.  With a 12-byte IV data block n uses counter n + 2, so the low byte wraps at block
+    # 254 (+256k).  Segments start t blocks before (or just after) the wrap for every t the by-16/32/48 kernels
+    # can distinguish, with and without a pending partial block, and continue for each length class of the kernels.
+    wraps = (1,) if tier == "quick" else (1, 2)
+    tvals = list(range(-2, 52))
+    for w in wraps:
+        nwrap = 256 * w - 2
+        for t in tvals:
+            classes = [(1, 256), (257, 511), (512, 767), (768, 1100)]
+            if tier == "quick":
+                classes = [classes[rng.below(4)], classes[rng.below(4)]]
+            for (lo, hi) in classes:
+                n0 = nwrap - t
+                delta = rng.choice([0, 0, 0, 3, 12, 15])
+                p0 = 16 * n0 + delta
+                seglen = lo + rng.below(hi - lo + 1)
+                tail = rng.choice([0, 0, 1, 17, 300])
+                L = p0 + seglen + tail
+                pre = biased_splits(rng, p0, 1 + rng.below(3))
+                segs = tuple(pre) + (seglen,) + ((tail,) if (tail or rng.chance(1, 4)) else ())
+                msg = rng.bytes(L)
+                add("gcm", rng.choice(GCM_FORMS), 1 + rng.below(2), rng.bytes(rng.choice([16, 24, 32])), rng.bytes(12),
+                    rng.bytes(rng.choice([0, 13, 20])), msg, segs, taglen=16, inplace=rng.below(2), family="ctrwrap")
     # no segment at all (empty message): num_sgl_io_segs = 0, init directly followed by finalize
     for d in (1, 2):
         for f in CH_FORMS:
@@ -549,7 +574,7 @@ def main(tier, seed):
     distinct_nt = set()
     for c in cases:
         L = len(c["msg"])
-        bump(hist_len, "0" if L == 0 else "1-15" if L < 16 else "16-63" if L < 64 else "64-255" if L < 256 else "256-1023" if L < 1024 else "1024-4200")
+        bump(hist_len, "0" if L == 0 else "1-15" if L < 16 else "16-63" if L < 64 else "64-255" if L < 256 else "256-1023" if L < 1024 else "1024-4200" if L <= 4200 else "4201-9500")
         bump(hist_nseg, str(len(c["segs"])))
         bump(hist_form, c["alg"] + "/" + c["form"] + "/" + ("enc" if c["dir"] == 1 else "dec"))
         bump(hist_alg, c["alg"])
@@ -571,7 +596,8 @@ def main(tier, seed):
                 "variant, its concatenated output and tag compared with the library's own one-shot job AND every context dump "
                 "(one per library call) compared with the extracted model; cases: all ordered partitions of messages of length "
                 "0..%d into 1, 2 and 3 segments including zero-length segments (exhaustive), plus random partitions into 1..12 "
-                "segments of messages up to 4200 bytes with split points biased to 16k-1/16k/16k+1/64k-1/64k+1/0/len; "
+                "segments of messages up to 4200 bytes with split points biased to 16k-1/16k/16k+1/64k-1/64k+1/0/len; GCM messages of 3.2-9.5 KB "
+                "with a segment starting t = -2..51 blocks before the counter low-byte wrap (block 254 / 510) for every kernel length class; "
                 "non-trivial = at least two non-empty segments and a split not on a 16-byte boundary; distinct = different "
                 "(algorithm, form, direction, key size, iv length, aad length, segment-length tuple, tag length)" % (20 if tier == "quick" else 48),
         "cases": len(cases), "oneshot_references": ev["refs"], "corpus_cases": ncorpus,
